@@ -201,6 +201,15 @@ def gen_palette():
         out.append(f'def {nm}Comment : Nat := {ord(m.group(1))}\n')
     if 'for line in data.lines()' not in lseen.get('Txt', '') or lseen.get('Txt', '').find('enumerate') >= 0:
         raise ExtractError('Txt importer: expected a plain `for line in data.lines()` loop')
+    # ---- import_palette: extension -> format
+    imp = ph[ph.find('pub fn import_palette('):ph.find('pub fn export_palette(')]
+    arms_i = re.findall(r'"(\w+)" => Palette::load_palette\(&PaletteFormat::(\w+), bytes\),', imp)
+    fmt_num = {'Hex': 0, 'Pal': 1, 'Gpl': 2, 'Ice': 3, 'Txt': 4}
+    if not arms_i or any(f not in fmt_num for _, f in arms_i) or 'ext.to_ascii_lowercase()' not in imp \
+            or not re.search(r'_ => Err\(anyhow::anyhow!\("Unsupported file extension', imp):
+        raise ExtractError('import_palette: extension dispatch not understood')
+    out.append('/-- `import_palette`: (lower-case extension, format: 0 Hex, 1 Pal, 2 Gpl, 3 Ice, 4 Txt) -/\n')
+    out.append('def importExts : List (List Nat × Nat) := [' + ', '.join(f'({cps(e)}, {fmt_num[f]})' for e, f in arms_i) + ']\n')
     out.append('end IcyVerif.Gen.Palette\n')
     return 'Palette.lean', ''.join(out)
 
